@@ -138,7 +138,13 @@ def results_by_id(net, idmap):
     return out
 
 
-def compare_results(ra, rb, rtol=1e-9, atol=1e-9, skip_cols=(), colmap=None):
+# columns that lag the solution by one Newton step (computed at the last linearisation point) or that use a
+# nearly-equal-pressure shortcut: compared with a wider relative tolerance
+LAGGING_COLS = {"lambda": 1e-6, "reynolds": 1e-6}
+GAS_VELOCITY_COLS = {"v_mean_m_per_s": 2e-5, "v_from_m_per_s": 2e-5, "v_to_m_per_s": 2e-5}
+
+
+def compare_results(ra, rb, rtol=1e-9, atol=1e-9, skip_cols=(), colmap=None, gas=False):
     """Compare two results_by_id dicts on the common ids.  Returns list of (id, col, a, b)."""
     diffs = []
     for eid in ra:
@@ -158,7 +164,9 @@ def compare_results(ra, rb, rtol=1e-9, atol=1e-9, skip_cols=(), colmap=None):
             vb = b[c]
             if np.isnan(va) and np.isnan(vb):
                 continue
-            if np.isnan(va) != np.isnan(vb) or abs(va - vb) > atol + rtol * max(abs(va), abs(vb)):
+            rt = max(rtol, LAGGING_COLS.get(c, 0.0), GAS_VELOCITY_COLS.get(c, 0.0) if gas else 0.0)
+            at = max(atol, 1e-7) if c in GAS_VELOCITY_COLS else atol
+            if np.isnan(va) != np.isnan(vb) or abs(va - vb) > at + rt * max(abs(va), abs(vb)):
                 diffs.append((eid, c, va, vb))
     return diffs
 
